@@ -586,6 +586,9 @@ def c12_structure(units, R):
                     return False
                 ok = guarded_by(cfg, node.id, nn_edge)
                 R.ob('C12S', fn, a0, 'strcmp on %s only after a NULL test' % s, ok, '', key='strcmp-null:' + s)
+    # numbers: the arm's verdict is compare_double of the two value doubles and of nothing else
+    sw, start, region = arm_region(8)
+    _c12_number(R, u, fn, cfg, start, pa, pb)
     # numbers: both operands of compare_double come from the two arguments
     for c in fn.calls():
         if callee_name(c) == 'compare_double':
@@ -595,6 +598,141 @@ def c12_structure(units, R):
                     if x.get('k') == 'ref' and x.get('dk') == 'param':
                         ds.add(x['d'])
             R.ob('C12S', fn, c, 'numbers: one operand from each argument', ds == {pa['d'], pb['d']}, expr_str(c)[:60], key='number-operands')
+
+
+def _c12_number(R, u, fn, cfg, start, pa, pb):
+    """The Number arm as a boolean function of the conditions it evaluates (static helpers are followed with their parameters
+    replaced by the arguments): it must be exactly compare_double(a->valuedouble, b->valuedouble).  A condition on anything
+    else (valueint, the type word, ...) that can change the verdict is a violation; one that cannot is ignored."""
+    import itertools
+    CD = 'compare_double'
+    if CD not in u.functions:
+        raise AnalysisBroken('C12N: %s not found' % CD)
+
+    def canon(e, env):
+        e = strip_casts(e)
+        k = e.get('k')
+        v = const_val(e)
+        if v is not None:
+            return str(v)
+        if k == 'ref':
+            return env.get(e.get('d'), e.get('n'))
+        if k == 'mem':
+            return '%s%s%s' % (canon(e['b'], env), '->' if e['arrow'] else '.', e['f'])
+        if k == 'call':
+            return '%s(%s)' % (callee_name(e) or '?', ', '.join(canon(a, env) for a in e['args']))
+        if k == 'bin':
+            return '(%s %s %s)' % (canon(e['l'], env), e['op'], canon(e['r'], env))
+        if k == 'un':
+            return '%s(%s)' % (e['op'], canon(e['e'], env))
+        return expr_str(e)
+
+    def val_tree(e, env, depth):
+        e = strip_casts(e)
+        v = const_val(e)
+        if v is not None:
+            return ('k', v != 0)
+        k = e.get('k')
+        if k == 'un' and e['op'] == '!':
+            return ('not', val_tree(e['e'], env, depth))
+        if k == 'cond':
+            return ('ite', val_tree(e['c'], env, depth), val_tree(e['t'], env, depth), val_tree(e['e'], env, depth))
+        if k == 'bin' and e['op'] in ('&&', '||'):
+            l, r = val_tree(e['l'], env, depth), val_tree(e['r'], env, depth)
+            return ('ite', l, r, ('k', False)) if e['op'] == '&&' else ('ite', l, ('k', True), r)
+        if k == 'bin' and e['op'] in ('==', '!='):
+            for (x, y) in ((e['l'], e['r']), (e['r'], e['l'])):
+                if const_val(y) == 0 and u.ty(strip_casts(x)['ty'])['c'] in ('int', 'bool'):
+                    t = val_tree(x, env, depth)
+                    return t if e['op'] == '!=' else ('not', t)
+        if k == 'call':
+            cn = callee_name(e)
+            h = u.functions.get(cn)
+            if cn == CD:
+                args = sorted(canon(a, env) for a in e['args'])
+                return ('atom', '%s(%s)' % (CD, ', '.join(args)))
+            if h is not None and h.static and h.body is not None and depth < 4 and cn != fn.name:
+                env2 = {p['d']: canon(a, env) for p, a in zip(h.params, e['args'])}
+                hcfg = h.cfg()
+                return tree_from(h, hcfg, hcfg.entry.id, env2, depth + 1, 0)
+        if k == 'ref' and e.get('d') in env and isinstance(env[e['d']], tuple):
+            return env[e['d']]
+        return ('atom', canon(e, env))
+
+    def tree_from(F, fcfg, nid, env, depth, steps):
+        while True:
+            steps += 1
+            if steps > 400:
+                raise AnalysisBroken('C12N: the number arm does not reduce to a verdict (loop in %s?)' % F.name)
+            node = fcfg.nodes[nid]
+            if node.kind == 'return':
+                return val_tree(node.expr, env, depth) if node.expr is not None else ('atom', 'void')
+            if node is fcfg.exit:
+                return ('atom', 'end of %s' % F.name)
+            if node.kind == 'branch':
+                c = val_tree(node.expr, env, depth)
+                ts = [y for (y, l) in fcfg.succ[nid] if l and l[0] == 'T']
+                fs = [y for (y, l) in fcfg.succ[nid] if l and l[0] == 'F']
+                if len(ts) != 1 or len(fs) != 1:
+                    raise AnalysisBroken('C12N: branch at %s:%d without two edges' % (F.name, node.line))
+                return ('ite', c, tree_from(F, fcfg, ts[0], dict(env), depth, steps), tree_from(F, fcfg, fs[0], dict(env), depth, steps))
+            if node.kind == 'switch':
+                raise AnalysisBroken('C12N: nested switch in the number arm (%s:%d)' % (F.name, node.line))
+            if node.kind == 'decl' and 'init' in node.decl:
+                t = u.ty(node.decl['ty'])
+                env = dict(env)
+                env[node.decl['d']] = val_tree(node.decl['init'], env, depth) if t['c'] in ('int', 'bool') else canon(node.decl['init'], env)
+            elif node.expr is not None:
+                e = strip_casts(node.expr)
+                if e.get('k') == 'bin' and e['op'] == '=' and strip_casts(e['l']).get('k') == 'ref':
+                    l = strip_casts(e['l'])
+                    t = u.ty(l['ty'])
+                    env = dict(env)
+                    env[l['d']] = val_tree(e['r'], env, depth) if t['c'] in ('int', 'bool') else canon(e['r'], env)
+            succ = fcfg.succ[nid]
+            if len(succ) != 1:
+                raise AnalysisBroken('C12N: %s:%d has %d successors' % (F.name, node.line, len(succ)))
+            nid = succ[0][0]
+
+    tree = tree_from(fn, cfg, start, {pa['d']: '@a', pb['d']: '@b'}, 0, 0)
+    atoms = []
+
+    def collect(t):
+        if t[0] == 'atom' and t[1] not in atoms:
+            atoms.append(t[1])
+        for x in t[1:]:
+            if isinstance(x, tuple):
+                collect(x)
+    collect(tree)
+
+    def evaluate(t, asg):
+        if t[0] == 'k':
+            return t[1]
+        if t[0] == 'atom':
+            return asg[t[1]]
+        if t[0] == 'not':
+            return not evaluate(t[1], asg)
+        return evaluate(t[2], asg) if evaluate(t[1], asg) else evaluate(t[3], asg)
+    want = '%s(%s)' % (CD, ', '.join(sorted(['@a->valuedouble', '@b->valuedouble'])))
+    cds = [a for a in atoms if a.startswith(CD + '(')]
+    if len(atoms) > 10:
+        raise AnalysisBroken('C12N: %d conditions in the number arm' % len(atoms))
+    ok_operands = cds == [want]
+    R.ob('C12N', fn, None, 'numbers are compared by compare_double on the two valuedouble fields', ok_operands,
+         'the arm evaluates %s' % (cds or 'no call of compare_double'), key='number-call')
+    if not ok_operands:
+        return
+    foreign = [a for a in atoms if a != want]
+    bad = None
+    for vals in itertools.product((False, True), repeat=len(atoms)):
+        asg = dict(zip(atoms, vals))
+        if evaluate(tree, asg) != asg[want]:
+            culprit = [a for a in foreign if evaluate(tree, dict(asg, **{a: not asg[a]})) == asg[want]]
+            bad = 'with compare_double %s the arm answers %s%s' % (
+                asg[want], not asg[want], (' because of the condition %s' % culprit[0].replace('@', '')) if culprit else '')
+            break
+    R.ob('C12N', fn, None, 'the verdict for two numbers is exactly that of compare_double', bad is None,
+         bad or ('no other condition can change it (%d conditions in the arm)' % len(atoms)), key='number-verdict')
 
 
 def _passes(cfg, a, b, seen):
